@@ -5,7 +5,7 @@ SPACINGS = [0.01, 0.5, 1.0, 1.0, 7.0]
 
 
 def pwl_config(rng, i, iters_choices=(0, 1, 2, 8, 30), allow_cyclic=True):
-  nk = int(rng.choice([2, 3, 4, 5, 6, 9]))
+  nk = int(rng.choice([2, 3, 4, 5, 6, 9, 40], p=[.16, .16, .16, .16, .15, .15, .06]))      # 40: calibrators far larger than any test uses
   units = int(rng.choice([1, 1, 2, 3]))
   mono = int([1, -1, 0][i % 3])
   conv = int(rng.choice([0, 0, 1, -1]))
